@@ -159,8 +159,47 @@ ConsumerOps == {
   TArr(TComma(TBin("+", N9, TNum(1)), TComma(TBin("%", TNum(7), N9), TComma(TNeg(N9), TPipe(N9, TC0("length"))))))
 }
 
+-----------------------------------------------------------------------------
+(* C12: collection built-ins on arrays / objects with duplicates, ties, mixed types, empties, non-string keys *)
+O2(k1, v1, k2, v2) == ObjV(<< << k1, v1 >>, << k2, v2 >> >>)
+SA == StrV(<< 97 >>)
+SB == StrV(<< 98 >>)
+SC == StrV(<< 99 >>)
+Coll12 == {
+  ArrV(<<>>), ArrV(<< IntV(1) >>), ArrV(<< IntV(2), IntV(1), IntV(2) >>), ArrV(<< IntV(1), SA, Null, ArrV(<< IntV(1) >>), ObjV(<< << SA, IntV(1) >> >>), False >>),
+  ArrV(<< ArrV(<< IntV(1), IntV(2) >>), ArrV(<< IntV(1) >>), ArrV(<< IntV(2), IntV(1) >>), ArrV(<<>>) >>),
+  ArrV(<< O2(SA, IntV(1), SB, IntV(2)), O2(SA, IntV(1), SB, IntV(1)), O2(SA, IntV(0), SB, IntV(3)), O2(SB, IntV(2), SA, IntV(1)) >>),
+  ArrV(<< SB, SA, SB, StrV(<< 97, 98 >>) >>), ArrV(<< FltV(1, 1), IntV(1), IntV(0), NZero >>),
+  ArrV(<< IntV(1), ArrV(<< IntV(2), ArrV(<< IntV(3) >>) >>), ObjV(<< << SA, ArrV(<< IntV(1), ArrV(<< IntV(2) >>) >>) >> >>) >>),
+  ArrV(<< ArrV(<< IntV(1) >>), ArrV(<< IntV(2), IntV(3) >>), ArrV(<< IntV(4), IntV(5), IntV(6) >>) >>),
+  ArrV(<< StrV(Ascii("foobar")), IntV(1) >>),
+  ObjV(<<>>), O2(SB, IntV(2), SA, IntV(1)), ObjV(<< << False, IntV(1) >> >>), O2(Null, IntV(1), False, IntV(2)),
+  ObjV(<< << SA, O2(SB, IntV(1), SC, IntV(2)) >>, << StrV(<< 100 >>), IntV(3) >> >>), O2(IntV(1), IntV(2), StrV(<< 120 >>), ArrV(<< IntV(1) >>)),
+  O2(SA, ArrV(<< ArrV(<< IntV(1), IntV(2) >>) >>), SB, Null),
+  StrV(Ascii("foobar")), StrV(<< 97, 228, 98 >>), IntV(-3), FltV(-5, 2), FltV(7, 2), Null, True
+}
+KeyFs == {TId, TKey("a"), TKey("b"), TArr(TComma(TKey("a"), TKey("b"))), TComma(TKey("a"), TKey("b")), TC0("empty"), TC0("length"), TBin("<", TId, TNum(2)), TC0("type")}
+Ops12 ==
+  {TC0(f) : f \in {"sort", "unique", "min", "max", "keys", "keys_unsorted", "to_entries", "flatten", "transpose", "add", "any", "all", "length", "reverse",
+                    "paths", "tostring", "tojson", "type", "isarray", "isobject", "isstring", "isnumber", "isboolean", "arrays", "objects", "scalars", "iterables",
+                    "values", "nulls", "abs", "floor", "round", "ceil", "explode", "ascii_upcase", "ascii_downcase", "utf8bytelength", "not"}}
+  \cup {TC1(f, k) : f \in {"sort_by", "group_by", "unique_by", "min_by", "max_by", "map", "map_values"}, k \in KeyFs}
+  \cup {TArr(TC0("combinations")), TPipe(TC0("to_entries"), TC0("from_entries")), TC1("with_entries", TId), TBin("==", TC0("keys"), TPipe(TC0("keys_unsorted"), TC0("sort"))),
+        TBin("==", TC1("sort_by", TKey("a")), TC1("sort_by", TArr(TKey("a")))), TC1("flatten", TNum(1)), TC1("flatten", TNum(0)), TC1("walk", TArr(TId)),
+        TC1("walk", TIf(TC0("isnumber"), TBin("+", TId, TNum(1)), TId)), TC1("del", TAt(TNum(0))), TC1("del", TKey("a")), TArr(TC1("paths", TC0("isnumber"))),
+        TC1("delpaths", TArr(TComma(TArr(TNum(0)), TArr(TStr(Ascii("a")))))), TC1("pick", TKey("a")), TC1("pick", TComma(TPath(TId, << PIdx(TStr(Ascii("a"))), PIdx(TStr(Ascii("b"))) >>), TPath(TId, << PIdx(TStr(Ascii("a"))), PIdx(TStr(Ascii("c"))) >>))),
+        TC1("pick", TComma(TKey("d"), TKey("a"))), TC1("join", TStr(<< 44 >>)), TC1("split", TStr(<< 98 >>)), TC1("split", TStr(<<>>)),
+        TC1("has", TNum(0)), TC1("has", TStr(Ascii("a"))), TPipe(TNum(0), TC1("in", TId)), TC1("select", TBin(">", TC0("length"), TNum(1)))}
+Needles12 == {IntV(1), IntV(2), SA, SB, StrV(Ascii("foo")), StrV(Ascii("bar")), StrV(Ascii("ob")), ArrV(<< IntV(1) >>), ArrV(<< IntV(1), IntV(1) >>), ArrV(<< IntV(2), IntV(1) >>),
+              ArrV(<< StrV(Ascii("foo")), StrV(Ascii("bar")) >>), ArrV(<< ArrV(<< IntV(1) >>), ArrV(<< IntV(2) >>) >>), Null, O2(SA, IntV(1), SB, IntV(2)),
+              ObjV(<< << SA, ArrV(<< ArrV(<< IntV(1) >>), ArrV(<< IntV(2) >>) >>) >> >>), ObjV(<< << SA, ObjV(<< << SB, IntV(1) >> >>) >> >>)}
+Ops12x == {TC1(f, TVar("x")) : f \in {"contains", "inside", "indices", "index", "rindex", "has", "startswith", "endswith", "ltrimstr", "rtrimstr", "bsearch", "split", "join"}}
+          \cup {TPipe(TVar("x"), TC1("in", TVar("c")))}
+
 Cases ==
-  CASE Suite = "arith-int" -> {<< TBin(op, a, b), <<>> >> : op \in ArithOps, a \in Lits9, b \in Lits9} \cup {<< TNeg(a), <<>> >> : a \in Lits9}
+  CASE Suite = "coll" -> {<< On(C, p), V1(c) >> : p \in Ops12, c \in Coll12}
+    [] Suite = "coll2" -> {<< On(C, p), << << "c", c >>, << "x", x >> >> >> : p \in Ops12x, c \in Coll12, x \in Needles12}
+    [] Suite = "arith-int" -> {<< TBin(op, a, b), <<>> >> : op \in ArithOps, a \in Lits9, b \in Lits9} \cup {<< TNeg(a), <<>> >> : a \in Lits9}
     [] Suite = "arith-kinds" -> {<< TBin(op, VA, VB), << << "a", a >>, << "b", b >> >> >> : op \in {"+", "-", "*", "/", "%"}, a \in Kinds9, b \in Kinds9}
                                  \cup {<< TNeg(VA), << << "a", a >> >> >> : a \in Kinds9}
     [] Suite = "int-consumers" -> {<< p, << << "n", n >> >> >> : p \in ConsumerOps, n \in Ints9}
